@@ -221,6 +221,12 @@ impl WorldA {
             obs.count("deliver.to_absent");
             return;
         }
+        if rside == CL && self.cfg.get("steamlike") == 1 {
+            if let Some(c) = self.conns[i].client.as_mut() {
+                obs.count("op.status_reasserted_before_receive");
+                c.set_connected();
+            }
+        }
         let was_alive = self.ep_alive(i, rside);
         if !was_alive {
             obs.count("oracle.C12.dead_accepts_nothing");
@@ -876,7 +882,10 @@ impl WorldA {
                 if n > 0 {
                     let ch = op.c as usize % n;
                     // (from 427 on: several hundred empty or one-byte messages, more than one packet's count field may hold)
-                    let (count, len) = if op.d >= 427 {
+                    // (from 854 on: thousands of empty messages — more messages in flight than a small channel has bytes)
+                    let (count, len) = if op.d >= 854 {
+                        (3001 + ((op.d % 61) * 20) as usize, 0usize)
+                    } else if op.d >= 427 {
                         (260 + ((op.d % 61) * 5) as usize, ((op.d / 61) % 2) as usize)
                     } else {
                         (40 + (op.d % 61) as usize, [1usize, 300, 1200, 1201, 1500, 2400, 2401][((op.d / 61) % 7) as usize])
@@ -885,6 +894,20 @@ impl WorldA {
                     for _ in 0..count {
                         self.submit(i, d, ch, len, None, obs);
                     }
+                    self.check_send_side(i, if d == 0 { CL } else { SV }, obs);
+                }
+            }
+            K_SUBMITHUGE => {
+                // one message of more than 256 slices (308 kB .. 768 kB; legal under the default 5 MiB channel budget): slice
+                // indexes and counts that no longer fit a byte
+                let i = op.a as usize % ncl;
+                let d = (op.b % 2) as usize;
+                let n = self.nchan(i, d);
+                if n > 0 {
+                    let ch = op.c as usize % n;
+                    let len = 256 * 1200 + 1 + (op.d % 460_000) as usize;
+                    obs.count("op.submit_huge");
+                    self.submit(i, d, ch, len, None, obs);
                     self.check_send_side(i, if d == 0 { CL } else { SV }, obs);
                 }
             }
